@@ -15,8 +15,8 @@ type Spec struct {
 	ID          string
 	Run         func(r *an.Run)
 	Thorough    func(r *an.Run) // extra, advisory analyses of the thorough tier (may be nil)
-	Explanation string   // what is decided and what is not (goes to evidence)
-	Trusted     []string // trusted base
+	Explanation string          // what is decided and what is not (goes to evidence)
+	Trusted     []string        // trusted base
 	Assumptions []string
 }
 
